@@ -223,6 +223,35 @@ class Gen:
     def text(self):
         return "\n".join(self.lines) + "\n"
 
+    def text_parallel(self):
+        """the same text with `#[verifier::spinoff_prover]` put in front of every exec/proof `fn` that has a body, ON THE SAME LINE
+        (line numbers, hence the origin table, are unchanged). Each function is then discharged by its own solver process and
+        Verus runs them on all threads; nothing about what is proved changes (no function's context depends on another's)."""
+        out = []
+        for i, l in enumerate(self.lines):
+            m = _FN_LINE.match(l)
+            if m and "spec fn" not in l and not l.rstrip().endswith(";") and "spinoff_prover" not in l \
+                    and not (i > 0 and ("spinoff_prover" in self.lines[i - 1] or "external_body" in self.lines[i - 1])) \
+                    and "external_body" not in l and not _in_trait_decl(self.lines, i):
+                l = m.group(1) + "#[verifier::spinoff_prover] " + l[len(m.group(1)):]
+            out.append(l)
+        return "\n".join(out) + "\n"
+
+
+_FN_LINE = re.compile(r"^(\s*)(?:pub(?:\([a-z]+\))? )?(?:exec |proof )?fn \w+")
+
+
+def _in_trait_decl(lines, i):
+    """True if line i is a method signature inside a `trait X { .. }` declaration (bodyless: the signature ends with `;`)."""
+    depth = 0
+    for j in range(i, min(i + 40, len(lines))):
+        t = lines[j]
+        if "{" in t:
+            return False
+        if t.rstrip().endswith(";"):
+            return True
+    return False
+
 
 def _find_body_open(st):
     """index (in significant tokens of a fn item) of the '{' opening the body."""
